@@ -32,6 +32,7 @@ vars == <<cfg, sub, queue, wg, wk, closed, main, runs, fin, h>>
 
 NW      == IF cfg.W <= 0 THEN 1 ELSE cfg.W       \* NewWorkerPool: <= 0 means 1
 Early   == "early" \in DOMAIN cfg /\ cfg.early    \* scenario with a Close that is not preceded by Wait
+SelfWait == "selfwait" \in DOMAIN cfg /\ cfg.selfwait   \* every submitter calls Wait itself after its submissions
 \* queue capacity: 2 * workers (flyt.go:959); a recorded scenario carries the capacity read off the real pool
 Cap     == IF "qcap" \in DOMAIN cfg /\ cfg.qcap >= 1 THEN cfg.qcap ELSE 2 * NW
 Workers == 1..NW
@@ -108,10 +109,24 @@ TaskEnd(w) ==
   /\ wk' = [wk EXCEPT ![w] = [st |-> "idle", task |-> 0]]
   /\ UNCHANGED <<cfg, sub, queue, closed, main>>
 
+\* a submitter that has submitted its tasks of the round calls Wait itself (several Waits may overlap) ...
+SubDone(s) == sub[s].pc = (IF SelfWait THEN "waited" ELSE "idle") /\ sub[s].next > cfg.per
+WaitCallS(s) ==
+  /\ SelfWait /\ main.pc = "submitting" /\ sub[s].pc = "idle" /\ sub[s].next > cfg.per
+  /\ sub' = [sub EXCEPT ![s].pc = "waiting"]
+  /\ h' = Append(h, [ev |-> "waitcall", round |-> main.round, w |-> s])
+  /\ UNCHANGED <<cfg, queue, wg, wk, closed, main, runs, fin>>
+\* ... and returns when the counter is zero: then at least everything submitted before its call has finished
+WaitRetS(s) ==
+  /\ sub[s].pc = "waiting" /\ wg = 0
+  /\ sub' = [sub EXCEPT ![s].pc = "waited"]
+  /\ h' = Append(h, [ev |-> "waitret", round |-> main.round, w |-> s])
+  /\ UNCHANGED <<cfg, queue, wg, wk, closed, main, runs, fin>>
+
 \* the main goroutine joins the submitters of the round, then calls Wait
 WaitCall ==
   /\ main.pc = "submitting" /\ ~(Early /\ main.round = cfg.rounds)
-  /\ \A s \in Subs : sub[s].pc = "idle" /\ sub[s].next > cfg.per
+  /\ \A s \in Subs : SubDone(s)
   /\ main' = [main EXCEPT !.pc = "waiting"]
   /\ h' = Append(h, [ev |-> "waitcall", round |-> main.round])
   /\ UNCHANGED <<cfg, sub, queue, wg, wk, closed, runs, fin>>
@@ -168,7 +183,7 @@ LeakProbe ==
   /\ UNCHANGED <<cfg, sub, queue, wg, wk, closed, runs, fin>>
 
 Next ==
-  \/ \E s \in Subs : SubmitCall(s) \/ SubmitSend(s) \/ SubmitReturn(s)
+  \/ \E s \in Subs : SubmitCall(s) \/ SubmitSend(s) \/ SubmitReturn(s) \/ WaitCallS(s) \/ WaitRetS(s)
   \/ \E w \in Workers : Pickup(w) \/ TaskStart(w) \/ TaskEnd(w) \/ Exit(w)
   \/ WaitCall \/ WaitRet \/ Close \/ CloseEarly \/ LeakProbe
 
@@ -185,6 +200,9 @@ WgExact == wg = Cardinality({s \in Subs : sub[s].pc = "send"}) + Len(queue) + Ca
 PoolBound == Cardinality(Running) <= NW
 \* Wait is a barrier: when it has returned, everything submitted before is finished
 WaitBarrier == (~Early /\ main.pc \in {"closing", "closed", "done"}) => \A t \in DOMAIN runs : runs[t] = 1
+\* a submitter whose own Wait has returned finds its own tasks of the round finished
+SelfWaitBarrier == \A s \in Subs : sub[s].pc = "waited" =>
+                      \A j \in 1..cfg.per : runs[TaskId(main.round, s, j)] = 1
 \* ... also between rounds
 RoundBarrier == main.pc = "submitting" => \A t \in DOMAIN runs : t < 1000000 * main.round => runs[t] = 1
 \* nothing is dropped: at the end every task ran exactly once
